@@ -127,7 +127,9 @@ def render(afile):
         if k in ('comment', 'header') and out and not out.endswith('\n'):
             out += '\n'          # a comment starts its own line
         if k == 'comment':
-            out += '# ' + s['text'] + '\n'
+            # (optionally indented: blanks before '#' do not make it a
+            # statement - the library strips them, as it does for any line)
+            out += s.get('indent', '') + '# ' + s['text'] + '\n'
             continue
         if k == 'header':
             out += '# Region file format: DS9 version 4.1\n'
